@@ -558,17 +558,17 @@ def chol_records(rng, count):
 def float_problem(rng, quick):
     k = rng.choice([1, 2, 3, 4, 4, 5, 6])
     S = rng.randint(1, 8 if quick else 20)
-    lo = rng.uniform(-100, 4000)
-    width = 10 ** rng.uniform(-1, 2)
-    bk = lo + width * np.arange(S + 1)
-    if rng.random() < 0.5 and S > 1:       # uneven interior breakpoints (the padding stays at the first spacing)
-        bk[1:-1] += width * np.array([rng.uniform(-0.3, 0.3) for _ in range(S - 1)])
     sparse = rng.random() < 0.4
     if sparse:
         # irregular sampling: cells holding exactly one point next to cells with 0, 2, 3 (whether the system is still
         # determined is TLC's verdict on the support counts)
         k = rng.choice([1, 2, 2, 3, 3, 4])
         S = max(S, 3)
+    lo = rng.uniform(-100, 4000)
+    width = 10 ** rng.uniform(-1, 2)
+    bk = lo + width * np.arange(S + 1)
+    if rng.random() < 0.5 and S > 1:       # uneven interior breakpoints (the padding stays at the first spacing)
+        bk[1:-1] += width * np.array([rng.uniform(-0.3, 0.3) for _ in range(S - 1)])
     per = rng.randint(k + 2, 14)
     xs = []
     for c0 in range(S):
@@ -582,7 +582,7 @@ def float_problem(rng, quick):
     y = amp * (np.sin((x - lo) / width * 1.7) + 0.3 * np.array([rng.gauss(0, 1) for _ in x]))
     pz = 0.03 if sparse else 0.08
     w = np.array([0.0 if rng.random() < pz else rng.choice([0.5, 1.0, 1.0, 2.0, 4.0]) for _ in x], dtype='d') / (0.1 * amp) ** 2 * wfac
-    return k, bk, x, y, w, amp
+    return k, bk, x, y, w, amp, sparse
 
 
 def sset_on(k, bk, x):
@@ -594,9 +594,10 @@ def law_records(rng, count, quick, stats):
     recs = []
     for r in range(count):
         law = ('lstsq', 'zw', 'lin', 'poly')[r % 4]
-        k, bk, x, y, w, amp = float_problem(rng, quick)
+        k, bk, x, y, w, amp, sparse = float_problem(rng, quick)
         rec = {'kind': 'fitlaw', 'law': law, 'nord': k, 'S': 0, 'pc': [0], 'st': [], 'finite': True, 'exc': '',
-               'disc': 0, 'bdisc': 0, 'condok': True, 'mask': [], 'tol': LAWTOL, 'altered': [], 'zeroidx': []}
+               'disc': 0, 'bdisc': 0, 'condok': True, 'mask': [], 'tol': LAWTOL, 'altered': [], 'zeroidx': [],
+               '_sparse': sparse}
         try:
             s = sset_on(k, bk, x)
         except Exception as ex:              # constructor trouble is C08's subject
@@ -717,6 +718,12 @@ def loop_history(rng, notes, big):
     if rng.random() < 0.5:
         pf = poly_for(nord, rng, 0.0, float(S), 3.0)
         y = pf(x)
+    # magnitudes: the histories must not depend on the units of y or of the inverse variances
+    ysc, wsc = 2.0 ** rng.choice([0, 0, -40, -20, 20, 40]), 2.0 ** rng.choice([0, 0, -70, -40, -10, 10, 40, 70])
+    y, w = y * ysc, w * wsc
+    if pf is not None:
+        pf0 = pf
+        pf = lambda xx: pf0(xx) * ysc
     events = []
     mrecs = []
     for _ in range(S):
@@ -1151,9 +1158,14 @@ def run_records(ctx, notes):
             mcomp[rec['src'].split('/')[0]] += 1
             for nm, v in rec['parts'].items():
                 stats['max_masked_' + nm] = max(stats.get('max_masked_' + nm, 0), v)
+    stats['sparse_law_records'] = sum(1 for r0 in recs if r0.get('_sparse'))
+    stats['sparse_law_records_optimum_compared'] = sum(1 for k, r0 in enumerate(recs) if r0.get('_sparse') and k in compared)
+    stats['law_records_optimum_compared'] = sum(1 for k, r0 in enumerate(recs) if r0.get('law') in ('lstsq', 'zw', 'lin', 'poly') and k in compared)
     stats['masked_records'] = len(masked)
     stats['masked_optimum_compared'] = mcomp
     need = {'machine': 150, 'loop': 10, 'iterfit': 10} if ctx.quick else {'machine': 1500, 'loop': 300, 'iterfit': 300}
+    mcomp = dict(mcomp, sparse=stats['sparse_law_records_optimum_compared'])
+    need['sparse'] = 15 if ctx.quick else 300
     short = {kk: (mcomp[kk], need[kk]) for kk in need if mcomp[kk] < need[kk]}
     if short and not bad and not ctx.violations:
         raise core.MachineryError('too few status-0 fits on objects with dropped breakpoints had their optimum compared: %r' % short)
